@@ -76,30 +76,22 @@ Definition agrees (c : case) : bool :=
 Definition holds (c : case) : bool :=
   let '(w, t0, _) := c in spec_b w t0 (observed c).
 
-(* class of the case, consulted when the spec fails.  Only failures of the logout-bookkeeping clauses
-   (cl_pending, cl_ends) are ever excused; the cache clauses, cl_accept, cl_after, cl_request never.
-   At the first failing step: the first trigger of an OPEN class (4, 5) seen at or before that step, if
-   any (theorem c19_until_first_trigger: before it nothing fails); otherwise the trigger of the failing
-   step itself — class 1, 2 or 3, which the repaired code never violates: they are listed as fixed, so a
-   regression is reported as a VIOLATION with this input. *)
-Fixpoint cls_from (w : world) (g : ghost) (vb : view) (tr : trace) (seen : nat) : nat :=
+(* class of the case, consulted when the spec fails.  No finding class is open any more (theorem
+   c19_property holds for every history), so this only NAMES the class a regression falls into: the
+   trigger (1-5) of the first failing step if the failing clause is about the logout bookkeeping
+   (cl_pending, cl_ends), else 0.  All five classes are listed as fixed, so whatever is returned the
+   driver reports a VIOLATION with the failing history. *)
+Fixpoint cls_from (w : world) (g : ghost) (vb : view) (tr : trace) : nat :=
   match tr with
   | [] => 0
   | (o, ou, va) :: r =>
-      let here := open_trigger w g vb o ou in
-      let seen' := match seen with O => here | _ => seen end in
       match failing_clause w g vb o ou va with
-      | O => cls_from w (ghost_step w g vb o ou va) va r seen'
-      | k =>
-          if 6 <=? k then
-            (* class 4 at this very step only excuses the loss of the moot request: no session may change *)
-            if (seen =? 0) && (here =? 4) && negb (subjects_eqb (v_subjects va) (v_subjects vb)) then 0
-            else match seen' with O => trigger w g vb o ou | _ => seen' end
-          else 0
+      | O => cls_from w (ghost_step w g vb o ou va) va r
+      | k => if 6 <=? k then trigger w g vb o ou else 0
       end
   end.
 Definition cls (c : case) : nat :=
-  let '(w, t0, _) := c in cls_from w (ghost0 t0) empty_view (observed c) 0.
+  let '(w, t0, _) := c in cls_from w (ghost0 t0) empty_view (observed c).
 
 Definition run := run_cases agrees holds cls.
 
